@@ -189,8 +189,13 @@ func (r *Reader) decodeG3ScanLine1D() {
 
 	numEOL := 0
 
-	for xpos < r.Columns && r.err == nil {
+	// A make-up code is always followed by a terminating code, even if the
+	// make-up code alone completes the row (run lengths 64, 128, ...).
+	makeup := false
+
+	for (xpos < r.Columns || makeup) && r.err == nil {
 		runLength, state := r.decodeRun(isWhite)
+		makeup = state == S_MakeUpW || state == S_MakeUpB || state == S_MakeUp
 
 		runLength = min(runLength, r.Columns-xpos)
 		r.fillRowBits(xpos, xpos+runLength, isWhite != r.BlackIs1)
